@@ -14,6 +14,9 @@ ASSUMPTIONS = [
     "std::chrono type names in GetTimeoutFromString under that assumption (tools/c18_consts.py)",
     "environment values contain no NUL byte (getenv cannot return one); each Resource::Create case runs in a fresh forked process because "
     "Create caches the detected environment resource in a function-local static",
+    "metric batches are observed at MetricReader::Collect callbacks of a cumulative and a delta reader per provider, for every invocation "
+    "including batches without data (a null resource_ is reported as its own token and never dereferenced); whether a batch has data is "
+    "modelled as 'the provider's counter was ever incremented'",
     "attribute values exercised are std::string, int64_t and bool; std::unordered_map iteration order is not observed (listings are sorted)",
     "'no undefined behaviour or crash' is additionally evidenced by the ASan/UBSan build on the generated stream; for the duration reader "
     "absence of signed overflow is also a theorem about the model (duration_no_ub)",
@@ -351,13 +354,36 @@ def gen_det(rng, n):
 
 
 def gen_prov(rng, n):
-    out = []
+    """providers with different resources, interleaved emissions and collections; collections also when there is
+    nothing to report: no meter at all, a meter without instruments, an instrument without measurements, the
+    delta reader twice in a row"""
+    def prov(nres, ops):
+        return "PROV ; " + " ; ".join(nres + ops)
+    r0 = "N x %s" % fmt_attrs([(b"a", b"1")])
+    r1 = "N %s %s" % (hx(b"https://opentelemetry.io/schemas/1.2.0"), fmt_attrs([(b"b", 2), (b"service.name", b"svc")]))
+    out = [prov([r0], ["K 0"]), prov([r0], ["D 0"]), prov([r0], ["K 0", "D 0", "K 0", "D 0"]),
+           prov([r0], ["G 0", "K 0", "D 0"]), prov([r0], ["I 0", "K 0", "D 0", "D 0"]),
+           prov([r0], ["A 0", "D 0", "D 0", "K 0", "D 0"]), prov([r0], ["K 0", "A 0", "K 0"]),
+           prov([r0, r1], ["K 0", "K 1", "D 1", "D 0"]), prov([r0, r1], ["A 0", "K 1", "D 1", "K 0", "D 0", "D 1", "D 0"]),
+           prov([r0, r1], ["E m 1", "K 0", "D 0", "K 1", "D 1", "E s 0", "E l 1", "K 0"]),
+           prov([r0, r1], ["G 0", "I 1", "K 0", "K 1", "D 0", "D 1", "E m 0", "D 1", "K 1"]),
+           prov(["N x"], ["K 0", "E s 0", "E l 0", "D 0"])]
     for _ in range(n):
         np_ = 1 + rng.below(3)
-        ops = [("N %s %s" % (hx(rnd_schema(rng)), fmt_attrs(rnd_attrs(rng, 3)))).strip() for _ in range(np_)]
-        for _ in range(1 + rng.below(5)):
-            ops.append("E %s %d" % (rng.choice("slm"), rng.below(np_)))
-        out.append("PROV ; " + " ; ".join(ops))
+        nres = [("N %s %s" % (hx(rnd_schema(rng)), fmt_attrs(rnd_attrs(rng, 3)))).strip() for _ in range(np_)]
+        ops = []
+        for _ in range(1 + rng.below(8)):
+            k = rng.below(12)
+            i = rng.below(np_)
+            if k < 3:
+                ops.append("E %s %d" % (rng.choice("slm"), i))
+            elif k < 6:
+                ops.append("K %d" % i)
+            elif k < 9:
+                ops.append("D %d" % i)
+            else:
+                ops.append("%s %d" % (rng.choice("GIA"), i))
+        out.append(prov(nres, ops))
     return out
 
 
@@ -376,7 +402,7 @@ def gen(rng, tier):
         cases.append("DIS %s" % env(clean(mutate(rng, rng.choice([b"true", b"TRUE", b"false"])))))
     cases += gen_det(rng, 250 * n)
     cases += gen_res(rng, 150 * n, 350 * n)
-    cases += gen_prov(rng, 40 * n)
+    cases += gen_prov(rng, 80 * n)
     return cases
 
 
